@@ -40,6 +40,13 @@ def lat2dAnswer (m : Lat2DModel) : List String → Option String
     let ax := if axis == "-" then "y" else axis
     some (match m.getDeformation name ax (parseCoord c) with
       | some d => lat2dShowMap d | none => lat2dErr)
+  -- the matrices the generic code model (`Model/Code.lean`) assembles from the lattice model
+  | ["hmat"] => some (match stabilizerMatrix m.lat.toCodeData with
+      | some H => showStack H | none => "ERR key")
+  | ["lxmat"] => some (match logicalsX m.lat.toCodeData with
+      | some L => showStack L | none => "ERR key")
+  | ["lzmat"] => some (match logicalsZ m.lat.toCodeData with
+      | some L => showStack L | none => "ERR key")
   | ["n"] => some (toString m.lat.toCodeData.n)
   | ["k"] => some (toString m.lat.toCodeData.k)
   | _ => none
